@@ -8,68 +8,68 @@ import (
 	"kinverif/internal/hx"
 )
 
-type jm = map[string]any
+type c13jm = map[string]any
 
-func c13Lit(v any) any     { return jm{"k": "lit", "v": v} }
-func c13Csv(v ...any) any  { return jm{"k": "csv", "v": v} }
-func c13Empty() any        { return jm{"k": "empty"} }
+func c13Lit(v any) any     { return c13jm{"k": "lit", "v": v} }
+func c13Csv(v ...any) any  { return c13jm{"k": "csv", "v": v} }
+func c13Empty() any        { return c13jm{"k": "empty"} }
 func c13Text(v any) string { b, _ := json.Marshal(v); return string(b) }
-func c13Opts(skip, multi bool) jm {
-	return jm{"skip": skip, "multi": multi, "excludeBody": false, "roDisabled": false}
+func c13Opts(skip, multi bool) c13jm {
+	return c13jm{"skip": skip, "multi": multi, "excludeBody": false, "roDisabled": false}
 }
 
-var c13NoSec = jm{"hasFunc": true, "declared": []any{"a", "b"}, "reqs": nil, "auth": jm{}}
-var c13NoBodySpec = jm{"present": false, "required": false, "schema": nil}
-var c13StreamOK = jm{"getBody": "ok", "cl": "len"}
+var c13NoSec = c13jm{"hasFunc": true, "declared": []any{"a", "b"}, "reqs": nil, "auth": c13jm{}}
+var c13NoBodySpec = c13jm{"present": false, "required": false, "schema": nil}
+var c13StreamOK = c13jm{"getBody": "ok", "cl": "len"}
 
-func c13Int(extra ...any) jm {
-	s := jm{"type": "integer"}
+func c13Int(extra ...any) c13jm {
+	s := c13jm{"type": "integer"}
 	for i := 0; i+1 < len(extra); i += 2 {
 		s[extra[i].(string)] = extra[i+1]
 	}
 	return s
 }
-func c13Str(extra ...any) jm {
-	s := jm{"type": "string"}
+func c13Str(extra ...any) c13jm {
+	s := c13jm{"type": "string"}
 	for i := 0; i+1 < len(extra); i += 2 {
 		s[extra[i].(string)] = extra[i+1]
 	}
 	return s
 }
-func c13Obj(props jm, extra ...any) jm {
-	s := jm{"type": "object", "properties": props}
+func c13Obj(props c13jm, extra ...any) c13jm {
+	s := c13jm{"type": "object", "properties": props}
 	for i := 0; i+1 < len(extra); i += 2 {
 		s[extra[i].(string)] = extra[i+1]
 	}
 	return s
 }
-func c13Arr(items any) jm { return jm{"type": "array", "items": items} }
+func c13Arr(items any) c13jm { return c13jm{"type": "array", "items": items} }
 
 // the pool of object schemas the body block combines
-func c13Pool() []jm {
-	return []jm{
-		c13Obj(jm{"a": c13Int("default", 1)}),
-		c13Obj(jm{"a": c13Int("default", 1), "b": c13Str()}, "required", []any{"b"}),
-		c13Obj(jm{"z": c13Int("default", 2)}),
-		c13Obj(jm{"x": c13Int("default", 1)}, "required", []any{"z"}),
-		c13Obj(jm{"a": c13Str("default", "d", "nullable", true)}),
-		c13Obj(jm{"r": c13Int("default", 3, "readOnly", true), "a": c13Int()}),
-		c13Obj(jm{"k": c13Str(), "m": c13Int("default", 9)}, "additionalProperties", false),
-		c13Obj(jm{"k": c13Int(), "s": c13Int("default", 4)}),
-		c13Obj(jm{"n": c13Obj(jm{"a": c13Int("default", 1)})}),
-		c13Obj(jm{"a": c13Int("default", 1)}, "required", []any{"a"}),
-		c13Obj(jm{"a": c13Int("nullable", true), "z": c13Str("default", "w")}),
-		c13Obj(jm{"n": c13Arr(c13Obj(jm{"k": c13Str(), "m": c13Int("default", 9)}))}),
+func c13Pool() []c13jm {
+	return []c13jm{
+		c13Obj(c13jm{"a": c13Int("default", 1)}),
+		c13Obj(c13jm{"a": c13Int("default", 1), "b": c13Str()}, "required", []any{"b"}),
+		c13Obj(c13jm{"z": c13Int("default", 2)}),
+		c13Obj(c13jm{"x": c13Int("default", 1)}, "required", []any{"z"}),
+		c13Obj(c13jm{"a": c13Str("default", "d", "nullable", true)}),
+		c13Obj(c13jm{"r": c13Int("default", 3, "readOnly", true), "a": c13Int()}),
+		c13Obj(c13jm{"k": c13Str(), "m": c13Int("default", 9)}, "additionalProperties", false),
+		c13Obj(c13jm{"k": c13Int(), "s": c13Int("default", 4)}),
+		c13Obj(c13jm{"n": c13Obj(c13jm{"a": c13Int("default", 1)})}),
+		c13Obj(c13jm{"a": c13Int("default", 1)}, "required", []any{"a"}),
+		c13Obj(c13jm{"a": c13Int("nullable", true), "z": c13Str("default", "w")}),
+		c13Obj(c13jm{"n": c13Arr(c13Obj(c13jm{"k": c13Str(), "m": c13Int("default", 9)}))}),
 	}
 }
 
 var c13ObjBodies = []any{
-	jm{}, jm{"a": 5}, jm{"a": nil}, jm{"b": "x"}, jm{"z": 7}, jm{"k": "x"}, jm{"k": 3}, jm{"a": "bad"},
-	jm{"x": 1, "z": 2}, jm{"r": 1}, jm{"n": jm{}}, jm{"q": 1}, jm{"n": []any{jm{"k": "x"}}}, jm{"a": 5, "b": "x", "z": nil},
+	c13jm{}, c13jm{"a": 5}, c13jm{"a": nil}, c13jm{"b": "x"}, c13jm{"z": 7}, c13jm{"k": "x"}, c13jm{"k": 3}, c13jm{"a": "bad"},
+	c13jm{"x": 1, "z": 2}, c13jm{"r": 1}, c13jm{"n": c13jm{}}, c13jm{"q": 1}, c13jm{"n": []any{c13jm{"k": "x"}}}, c13jm{"a": 5, "b": "x", "z": nil},
 }
 var c13ArrBodies = []any{
-	[]any{}, []any{jm{}}, []any{jm{"k": "x"}, jm{"k": "x", "m": 1}}, []any{jm{"k": 3}}, []any{jm{}, jm{"a": 5}},
-	[]any{nil}, []any{jm{"z": 7}, jm{"x": 1, "z": 2}}, []any{jm{"a": nil}},
+	[]any{}, []any{c13jm{}}, []any{c13jm{"k": "x"}, c13jm{"k": "x", "m": 1}}, []any{c13jm{"k": 3}}, []any{c13jm{}, c13jm{"a": 5}},
+	[]any{nil}, []any{c13jm{"z": 7}, c13jm{"x": 1, "z": 2}}, []any{c13jm{"a": nil}},
 }
 
 func c13BodyCase(schema any, body any, skip, multi, ro bool) hx.Case {
@@ -82,7 +82,7 @@ func c13BodyCase(schema any, body any, skip, multi, ro bool) hx.Case {
 		text = c13Text(body)
 	}
 	return hx.Case{"opts": o, "sec": c13NoSec, "stream": c13StreamOK, "body": text, "ctype": "application/json",
-		"bodySpec": jm{"present": true, "required": false, "schema": schema}, "params": []any{}, "store": []any{}}
+		"bodySpec": c13jm{"present": true, "required": false, "schema": schema}, "params": []any{}, "store": []any{}}
 }
 
 func genC13(ctx *hx.Ctx, emit func(hx.Case)) {
@@ -92,7 +92,7 @@ func genC13(ctx *hx.Ctx, emit func(hx.Case)) {
 		n++
 		return thorough || n%k == 0
 	}
-	s0 := c13Obj(jm{"a": c13Int(), "d": c13Int("default", 7)})
+	s0 := c13Obj(c13jm{"a": c13Int(), "d": c13Int("default", 7)})
 
 	// ---- block A: body stream × security
 	secShapes := []any{nil, []any{[]any{}}, []any{[]any{"a"}}, []any{[]any{"u"}}, []any{[]any{"a", "b"}},
@@ -113,14 +113,14 @@ func genC13(ctx *hx.Ctx, emit func(hx.Case)) {
 							if !thin(3) {
 								continue
 							}
-							auth := jm{"a": jm{"reads": vec&1 != 0, "ok": vec&2 != 0}, "b": jm{"reads": vec&4 != 0, "ok": vec&8 != 0}}
+							auth := c13jm{"a": c13jm{"reads": vec&1 != 0, "ok": vec&2 != 0}, "b": c13jm{"reads": vec&4 != 0, "ok": vec&8 != 0}}
 							if vecs == 1 {
-								auth = jm{"a": jm{"reads": true, "ok": true}, "b": jm{"reads": false, "ok": true}}
+								auth = c13jm{"a": c13jm{"reads": true, "ok": true}, "b": c13jm{"reads": false, "ok": true}}
 							}
 							emit(hx.Case{"opts": c13Opts(o&1 != 0, o&2 != 0),
-								"sec":    jm{"hasFunc": true, "declared": []any{"a", "b"}, "reqs": shape, "auth": auth},
-								"stream": jm{"getBody": gb, "cl": cl}, "body": body, "ctype": "application/json",
-								"bodySpec": jm{"present": true, "required": vec&1 == 0, "schema": s0}, "params": []any{}, "store": []any{}})
+								"sec":    c13jm{"hasFunc": true, "declared": []any{"a", "b"}, "reqs": shape, "auth": auth},
+								"stream": c13jm{"getBody": gb, "cl": cl}, "body": body, "ctype": "application/json",
+								"bodySpec": c13jm{"present": true, "required": vec&1 == 0, "schema": s0}, "params": []any{}, "store": []any{}})
 						}
 					}
 				}
@@ -132,9 +132,9 @@ func genC13(ctx *hx.Ctx, emit func(hx.Case)) {
 					if v == 3 {
 						ct = "text/plain"
 					}
-					emit(hx.Case{"opts": o, "sec": jm{"hasFunc": v != 0, "declared": []any{"a"}, "reqs": []any{[]any{"a"}}, "auth": jm{"a": jm{"reads": true, "ok": true}}},
-						"stream": jm{"getBody": gb, "cl": cl}, "body": body, "ctype": ct,
-						"bodySpec": jm{"present": v != 1, "required": false, "schema": s0}, "params": []any{}, "store": []any{}})
+					emit(hx.Case{"opts": o, "sec": c13jm{"hasFunc": v != 0, "declared": []any{"a"}, "reqs": []any{[]any{"a"}}, "auth": c13jm{"a": c13jm{"reads": true, "ok": true}}},
+						"stream": c13jm{"getBody": gb, "cl": cl}, "body": body, "ctype": ct,
+						"bodySpec": c13jm{"present": v != 1, "required": false, "schema": s0}, "params": []any{}, "store": []any{}})
 				}
 			}
 		}
@@ -164,10 +164,10 @@ func genC13(ctx *hx.Ctx, emit func(hx.Case)) {
 							if !thin(2) {
 								continue
 							}
-							p := jm{"name": names[loc], "in": loc, "ty": ty, "dflt": d, "required": fl&1 != 0, "allowEmpty": fl&4 != 0, "explode": ex}
+							p := c13jm{"name": names[loc], "in": loc, "ty": ty, "dflt": d, "required": fl&1 != 0, "allowEmpty": fl&4 != 0, "explode": ex}
 							store := []any{}
 							if raw != nil {
-								store = append(store, jm{"in": loc, "name": names[loc], "raw": raw})
+								store = append(store, c13jm{"in": loc, "name": names[loc], "raw": raw})
 							}
 							emit(hx.Case{"opts": c13Opts(fl&2 != 0, false), "sec": c13NoSec, "stream": c13StreamOK, "body": nil, "ctype": "",
 								"bodySpec": c13NoBodySpec, "params": []any{p}, "store": store})
@@ -191,22 +191,22 @@ func genC13(ctx *hx.Ctx, emit func(hx.Case)) {
 				if l1 == l2 {
 					n2 += "2"
 				}
-				p1 := jm{"name": names[l1], "in": l1, "ty": "integer", "dflt": 7, "required": v&1 != 0, "allowEmpty": false, "explode": nil}
-				p2 := jm{"name": n2, "in": l2, "ty": "array:integer", "dflt": []any{1, 2}, "required": false, "allowEmpty": false, "explode": v&2 == 0}
-				store := []any{jm{"in": "query", "name": "other", "raw": []any{c13Lit("a b")}}}
+				p1 := c13jm{"name": names[l1], "in": l1, "ty": "integer", "dflt": 7, "required": v&1 != 0, "allowEmpty": false, "explode": nil}
+				p2 := c13jm{"name": n2, "in": l2, "ty": "array:integer", "dflt": []any{1, 2}, "required": false, "allowEmpty": false, "explode": v&2 == 0}
+				store := []any{c13jm{"in": "query", "name": "other", "raw": []any{c13Lit("a b")}}}
 				if v&4 != 0 {
-					store = append(store, jm{"in": l1, "name": names[l1], "raw": []any{c13Lit("zz")}})
+					store = append(store, c13jm{"in": l1, "name": names[l1], "raw": []any{c13Lit("zz")}})
 				}
 				emit(hx.Case{"opts": c13Opts(false, v&8 != 0), "sec": c13NoSec, "stream": c13StreamOK, "body": `{}`, "ctype": "application/json",
-					"bodySpec": jm{"present": true, "required": false, "schema": s0}, "params": []any{p1, p2}, "store": store})
+					"bodySpec": c13jm{"present": true, "required": false, "schema": s0}, "params": []any{p1, p2}, "store": store})
 			}
 		}
 	}
 
 	// ---- block C: body schemas × bodies
 	pool := c13Pool()
-	wrapE := func(s any) jm { return c13Obj(jm{"e": s}) }
-	wrapB := func(b any) any { return jm{"e": b} }
+	wrapE := func(s any) c13jm { return c13Obj(c13jm{"e": s}) }
+	wrapB := func(b any) any { return c13jm{"e": b} }
 	emitAll := func(schema any, bodies []any, wrap bool) {
 		for _, b := range bodies {
 			for o := 0; o < 3; o++ {
@@ -232,18 +232,18 @@ func genC13(ctx *hx.Ctx, emit func(hx.Case)) {
 	for _, kind := range []string{"anyOf", "oneOf", "allOf"} {
 		for _, s1 := range pool {
 			for _, s2 := range pool {
-				emitAll(jm{kind: []any{s1, s2}}, c13ObjBodies, false)
-				emitAll(jm{kind: []any{c13Arr(s1), c13Arr(s2)}}, c13ArrBodies, true)
+				emitAll(c13jm{kind: []any{s1, s2}}, c13ObjBodies, false)
+				emitAll(c13jm{kind: []any{c13Arr(s1), c13Arr(s2)}}, c13ArrBodies, true)
 				if thorough {
-					emitAll(jm{kind: []any{s1, s2}}, c13ObjBodies, true)
-					emitAll(jm{kind: []any{c13Arr(s1), c13Arr(s2)}}, c13ArrBodies, false)
+					emitAll(c13jm{kind: []any{s1, s2}}, c13ObjBodies, true)
+					emitAll(c13jm{kind: []any{c13Arr(s1), c13Arr(s2)}}, c13ArrBodies, false)
 				}
 			}
 		}
 	}
 	for _, t := range []string{`{"a":1} x`, `{"a":`, `[1,2]`, `null`, `5`, `"s"`} {
 		emit(c13BodyCase(pool[0], t, false, false, false))
-		emit(c13BodyCase(jm{"anyOf": []any{pool[0], c13Int("nullable", true)}}, t, false, false, false))
+		emit(c13BodyCase(c13jm{"anyOf": []any{pool[0], c13Int("nullable", true)}}, t, false, false, false))
 	}
 
 	// ---- seeded random stream
@@ -253,9 +253,9 @@ func genC13(ctx *hx.Ctx, emit func(hx.Case)) {
 		count = 90000
 	}
 	keys := []string{"a", "b", "k", "z"}
-	var randSchema func(depth int) jm
-	randLeaf := func() jm {
-		var s jm
+	var randSchema func(depth int) c13jm
+	randLeaf := func() c13jm {
+		var s c13jm
 		switch r.Intn(4) {
 		case 0:
 			s = c13Int()
@@ -268,12 +268,12 @@ func genC13(ctx *hx.Ctx, emit func(hx.Case)) {
 				s["default"] = hx.Pick(r, []string{"d", "w"})
 			}
 		case 2:
-			s = jm{"type": "boolean"}
+			s = c13jm{"type": "boolean"}
 			if r.Chance(40) {
 				s["default"] = r.Bool()
 			}
 		default:
-			s = jm{}
+			s = c13jm{}
 			if r.Chance(40) {
 				s["default"] = 5
 			}
@@ -286,13 +286,13 @@ func genC13(ctx *hx.Ctx, emit func(hx.Case)) {
 		}
 		return s
 	}
-	randSchema = func(depth int) jm {
+	randSchema = func(depth int) c13jm {
 		if depth <= 0 {
 			return randLeaf()
 		}
 		switch x := r.Intn(10); {
 		case x < 5:
-			props := jm{}
+			props := c13jm{}
 			for i, k := 0, 1+r.Intn(3); i < k; i++ {
 				key := hx.Pick(r, keys)
 				if r.Chance(65) {
@@ -319,10 +319,10 @@ func genC13(ctx *hx.Ctx, emit func(hx.Case)) {
 			for i, k := 0, 1+r.Intn(3); i < k; i++ {
 				bs = append(bs, randSchema(depth-1))
 			}
-			return jm{hx.Pick(r, []string{"anyOf", "oneOf", "allOf"}): bs}
+			return c13jm{hx.Pick(r, []string{"anyOf", "oneOf", "allOf"}): bs}
 		}
 	}
-	var randValue func(s jm, depth int) any
+	var randValue func(s c13jm, depth int) any
 	randScalar := func() any {
 		switch r.Intn(4) {
 		case 0:
@@ -334,22 +334,22 @@ func genC13(ctx *hx.Ctx, emit func(hx.Case)) {
 		}
 		return nil
 	}
-	randValue = func(s jm, depth int) any {
+	randValue = func(s c13jm, depth int) any {
 		if r.Chance(6) {
 			return randScalar()
 		}
 		for _, k := range []string{"anyOf", "oneOf", "allOf"} {
 			if bs, ok := s[k].([]any); ok && len(bs) > 0 {
-				return randValue(hx.Pick(r, bs).(jm), depth)
+				return randValue(hx.Pick(r, bs).(c13jm), depth)
 			}
 		}
 		switch s["type"] {
 		case "object":
-			out := jm{}
-			props, _ := s["properties"].(jm)
+			out := c13jm{}
+			props, _ := s["properties"].(c13jm)
 			for k, ps := range props {
 				if r.Chance(45) {
-					out[k] = randValue(ps.(jm), depth+1)
+					out[k] = randValue(ps.(c13jm), depth+1)
 				} else if r.Chance(10) {
 					out[k] = nil
 				}
@@ -361,7 +361,7 @@ func genC13(ctx *hx.Ctx, emit func(hx.Case)) {
 		case "array":
 			out := []any{}
 			for i, k := 0, r.Intn(3); i < k; i++ {
-				out = append(out, randValue(s["items"].(jm), depth+1))
+				out = append(out, randValue(s["items"].(c13jm), depth+1))
 			}
 			return out
 		case "integer":
@@ -424,7 +424,7 @@ func genC13(ctx *hx.Ctx, emit func(hx.Case)) {
 			if r.Chance(50) {
 				ex = r.Bool()
 			}
-			params = append(params, jm{"name": name, "in": loc, "ty": ty, "dflt": d, "required": r.Chance(15), "allowEmpty": r.Chance(10), "explode": ex})
+			params = append(params, c13jm{"name": name, "in": loc, "ty": ty, "dflt": d, "required": r.Chance(15), "allowEmpty": r.Chance(10), "explode": ex})
 			if r.Chance(45) {
 				var raw []any
 				base := ty
@@ -446,7 +446,7 @@ func genC13(ctx *hx.Ctx, emit func(hx.Case)) {
 				default:
 					raw = []any{c13Lit(randScalarOf(base))}
 				}
-				store = append(store, jm{"in": loc, "name": name, "raw": raw})
+				store = append(store, c13jm{"in": loc, "name": name, "raw": raw})
 			}
 		}
 		var reqs any
@@ -462,10 +462,10 @@ func genC13(ctx *hx.Ctx, emit func(hx.Case)) {
 			ct = "text/plain"
 		}
 		emit(hx.Case{"opts": o,
-			"sec":    jm{"hasFunc": !r.Chance(3), "declared": []any{"a", "b"}, "reqs": reqs, "auth": jm{"a": jm{"reads": vec&1 != 0, "ok": vec&2 != 0 || r.Chance(50)}, "b": jm{"reads": vec&4 != 0, "ok": vec&8 != 0 || r.Chance(50)}}},
-			"stream": jm{"getBody": hx.Pick(r, []string{"nil", "ok", "ok", "fails"}), "cl": hx.Pick(r, []string{"len", "len", "unknown"})},
+			"sec":    c13jm{"hasFunc": !r.Chance(3), "declared": []any{"a", "b"}, "reqs": reqs, "auth": c13jm{"a": c13jm{"reads": vec&1 != 0, "ok": vec&2 != 0 || r.Chance(50)}, "b": c13jm{"reads": vec&4 != 0, "ok": vec&8 != 0 || r.Chance(50)}}},
+			"stream": c13jm{"getBody": hx.Pick(r, []string{"nil", "ok", "ok", "fails"}), "cl": hx.Pick(r, []string{"len", "len", "unknown"})},
 			"body":   body, "ctype": ct,
-			"bodySpec": jm{"present": !r.Chance(5), "required": r.Chance(30), "schema": schema},
+			"bodySpec": c13jm{"present": !r.Chance(5), "required": r.Chance(30), "schema": schema},
 			"params":   params, "store": store, "reuseInput": r.Chance(12)})
 	}
 }
